@@ -101,7 +101,7 @@ class StoreModel(FsModel):
             self.ev("fs.read_dir", a[0])
             return ok(Struct("__ReadDir", {"dir": a[0], "n": [0]}))
         if np == "fs::remove_dir":
-            return self.io("remove", a[0])
+            return self.io("rmdir", a[0])
         if np == "StreamingBlob::wrap":
             return a[0]
         if np == "from_internal_info" or path.endswith("checksum::from_internal_info"):
@@ -202,6 +202,7 @@ def rfc_slice(kind, first, last, length, ln):
     if kind == "int":
         return z3.And(first < ln, first <= last), first, z3.If(last < ln - 1, last, ln - 1) + 1
     # suffix: the last `length` bytes; longer than the representation = all of it; zero length is unsatisfiable
+    # (a suffix of an EMPTY representation is left open: RFC 9110 would serve nothing, S3 answers 416 — callers exclude ln == 0)
     return length > 0, z3.If(length > ln, 0, ln - length), ln
 
 
@@ -240,7 +241,7 @@ def ranged_reads(prog):
     first, last, length, ln = m.ints.get("first"), m.ints.get("last"), m.ints.get("length"), m.ints.get("file_len")
     if ln is None:
         raise Inconclusive("get_object never read the file length")
-    pre = z3.And(first <= I64MAX, last <= I64MAX, first <= last)
+    pre_all = z3.And(first <= I64MAX, last <= I64MAX, first <= last)
     findings = {}
     n_q = 0
     for p in paths:
@@ -249,6 +250,7 @@ def ranged_reads(prog):
         if not any(e[0] == "fs.open" for e in p.events) or any(vkey(a) == "NotFound" for e in p.events for a in e[1]):
             pass
         sat_, s, e_ = rfc_slice(kind, first, last, length, ln)
+        pre = z3.And(pre_all, ln > 0) if kind == "suffix" else pre_all
         o, pay = outcome_of(p)
         sol = ex.solver
 
@@ -391,7 +393,7 @@ def explore(prog, op):
     return m, ex.explore(ROOT, [], "s3")
 
 
-EFFECTS = ("fs.rename", "fs.copy", "fs.write_file", "fs.remove", "fs.mkdir", "fs.create", "fs.write")
+EFFECTS = ("fs.rename", "fs.copy", "fs.write_file", "fs.remove", "fs.rmdir", "fs.mkdir", "fs.create", "fs.write")
 
 
 def ownership(prog):
@@ -483,6 +485,8 @@ def side_files(prog):
     """S: the user-metadata file follows the object; no self-copy"""
     findings = {}
     stats = {}
+    injective_pairs = [(Term("object_path", Term("src_bucket"), Term("src_key")), Term("object_path", Term("bucket"), Term("key"))),
+                       (Term("metadata_path", Term("src_bucket"), Term("src_key"), none()), Term("metadata_path", Term("bucket"), Term("key"), none()))]
     for op in ("put_object", "copy_object", "complete_multipart_upload", "delete_object"):
         m, paths = explore(prog, op)
         ex = m.ex
@@ -496,6 +500,9 @@ def side_files(prog):
                         ex.solver.push()
                         ex.solver.add(*p.pc)
                         ex.solver.add(ex.eq(a[0], a[1]))
+                        # the path constructors are injective in (bucket, key): equal object paths <=> equal metadata paths <=> equal arguments
+                        for t1, t2 in injective_pairs:
+                            ex.solver.add(ex.eq(t1, t2) == z3.And(ex.eq(Term("src_bucket"), Term("bucket")), ex.eq(Term("src_key"), Term("key"))))
                         r = ex.solver.check()
                         ex.solver.pop()
                         if r != z3.unsat:
